@@ -1071,7 +1071,7 @@ Theorem fmt_time_exact d : d < 1000000 -> fmt_time d = d.
 Proof.
   intros H. unfold fmt_time. destruct (d =? 0) eqn:E0; [lia|].
   replace (d <? 9223372036854775808) with true by lia.
-  unfold time_limits. cbn [fmt_loop].
+  unfold time_limits, UV.Gen.TimeUnit.TIME_UNIT_LIMITS. cbn [fmt_loop].
   assert (Hd : d / 1000 < 1000) by (apply N.div_lt_upper_bound; lia).
   replace (d / 1000 <? 1000) with true by lia.
   replace (999 <? d / 1000) with false by lia.
